@@ -147,9 +147,13 @@ class Session:
             return iso.add_fp(fp, op['length'], **kw)
         if name == 'add_directory':
             kw = {k: op[k] for k in ('iso_path', 'rr_name', 'joliet_path', 'udf_path', 'file_mode') if op.get(k) is not None}
+            if list(kw) == ['joliet_path'] and len(kw['joliet_path']) % 3 == 0:
+                return iso.add_joliet_directory(kw['joliet_path'])       # the older spelling of the same call
             return iso.add_directory(**kw)
         if name == 'rm_directory':
             kw = {k: op[k] for k in ('iso_path', 'rr_name', 'joliet_path', 'udf_path') if op.get(k) is not None}
+            if list(kw) == ['joliet_path'] and len(kw['joliet_path']) % 3 == 0:
+                return iso.rm_joliet_directory(kw['joliet_path'])
             return iso.rm_directory(**kw)
         if name == 'rm_file':
             kw = {k: op[k] for k in ('iso_path', 'rr_name', 'joliet_path', 'udf_path') if op.get(k) is not None}
